@@ -38,6 +38,8 @@ def run(ctx):
         corr_repeated.grid(ctx, obs[0])   # exhaustive index/slice grid through the same observer (one driver batch)
     session.run_churn(ctx, ctx.scale(100, 1500), ctx.scale(50, 80), ['frame', 'reads'], observers=obs)   # small blocks: split/merge/redistribution underneath
     session.finish_observers(ctx, obs)
+    import viewprobes
+    viewprobes.run(ctx)
     slicegrid.run(ctx, ['frame'])
     import slotgrid
     slotgrid.run(ctx, ['frame'])
